@@ -56,10 +56,12 @@ theorem applyNEffs_nil (p : KParams) (f : Nat) (s : KSt) : applyNEffs p (f + 1) 
   rw [applyNEffs]
   intro h; cases h
 
+/-- a posted completion: the kernel gets a plain task, the rest is the driver's bookkeeping -/
 theorem applyNEffs_post (p : KParams) (f : Nat) (c : Compl) (rest : List NEff) (s : KSt) :
-    applyNEffs p (f + 1) (.post c :: rest) s
-      = applyNEffs p (f + 1) rest { s with k := step p s.k (.post c.h), compl := s.compl ++ [(c.h, c.ec, c.extra)] } := by
+    ∃ s', applyNEffs p (f + 1) (.post c :: rest) s = applyNEffs p (f + 1) rest s'
+      ∧ s'.k = step p s.k (.post c.h) := by
   rw [applyNEffs]
+  exact ⟨_, rfl, rfl⟩
 
 theorem applyNEffs_cancelTimer_some (p : KParams) (f : Nat) (o : String) (sl t : Nat) (rest : List NEff) (s : KSt)
     (h : s.itimers.lookup (o, sl) = some t) :
@@ -88,11 +90,14 @@ theorem CatchInv_applyNEffs (p : KParams) (k0 : K) (f : Nat) (effs : List NEff) 
       have he := hs e List.mem_cons_self
       cases e with
       | post c =>
-        rw [applyNEffs_post]
+        obtain ⟨s', he', hk'⟩ := applyNEffs_post p f c rest s
+        rw [he']
         apply ih _ hrest
         obtain ⟨extra, hx, ht⟩ := hI.ready
-        refine ⟨KDead_post s.k c.h hI.dead, hI.timers, hI.stopped, extra ++ [{ h := c.h, ec := .ok, st := s.k.now }], ?_, ?_⟩
-        · show (postTask s.k c.h).ready = _
+        have hk2 : s'.k = postTask s.k c.h := hk'
+        refine ⟨by rw [hk2]; exact KDead_post s.k c.h hI.dead, by rw [hk2]; exact hI.timers,
+          by rw [hk2]; exact hI.stopped, extra ++ [{ h := c.h, ec := .ok, st := s.k.now }], ?_, ?_⟩
+        · rw [hk2]
           unfold postTask; dsimp only; rw [hx, List.append_assoc]
         · intro t htm
           rw [List.mem_append] at htm
